@@ -614,7 +614,7 @@ func (g *XG) Bool(depth int) gast.Expr {
 	alts := []alt{{"atom", 2}}
 	if depth > 0 {
 		alts[0].w = 1
-		alts = append(alts, alt{"cmpint", 6}, alt{"cmpfloat", 3}, alt{"cmpstr", 2}, alt{"logic", 5}, alt{"not", 2}, alt{"booleq", 1})
+		alts = append(alts, alt{"cmpint", 6}, alt{"cmpfloat", 3}, alt{"cmpstr", 2}, alt{"logic", 5}, alt{"not", 2}, alt{"booleq", 1}, alt{"plain_and_negated", 1})
 		if len(g.pathsOf(gast.TTime, nil)) > 0 || g.C.Builtins {
 			alts = append(alts, alt{"cmptime", 1})
 		}
@@ -689,6 +689,16 @@ func (g *XG) Bool(depth int) gast.Expr {
 	case "not":
 		g.feat("not")
 		return &gast.Not{X: g.Bool(depth - 1)}
+	case "plain_and_negated":
+		// the same sub-expression once in parentheses and once negated: (E) op !(E)
+		e := g.Bool(depth - 1)
+		op := []gast.Op{gast.OpAnd, gast.OpOr, gast.OpEq, gast.OpNEq}[g.pick(4, "pn_op")]
+		g.feat("same_expression_plain_and_negated")
+		var l, r gast.Expr = &gast.Paren{X: e}, &gast.Not{X: &gast.Paren{X: gast.Clone(e)}}
+		if g.pick(2, "pn_swap") == 0 {
+			l, r = r, l
+		}
+		return &gast.Bin{Op: op, L: l, R: r}
 	case "booleq":
 		op := []gast.Op{gast.OpEq, gast.OpNEq}[g.pick(2, "booleq_op")]
 		return &gast.Bin{Op: op, L: g.Bool(depth - 1), R: g.Bool(depth - 1)}
